@@ -249,9 +249,22 @@ func (r *SpecReg) buildFold(sd *SpecDecl) {
 		r.prog.errf(sd.Line, "sumfold %s: %v", name, err)
 		return
 	}
-	if g.Sort != SInt {
-		r.prog.errf(sd.Line, "sumfold %s: element expression must be int", name)
+	ret := SInt
+	if sd.Ret != nil {
+		rs, _, err := r.prog.ResolveTypeX(r.ss, sd.Pkg, sd.Ret)
+		if err != nil {
+			r.prog.errf(sd.Line, "%v", err)
+			return
+		}
+		ret = rs
+	}
+	if g.Sort != ret || (ret != SInt && ret != SReal) {
+		r.prog.errf(sd.Line, "sumfold %s: element expression has sort %s, fold returns %s", name, g.Sort.Name, ret.Name)
 		return
+	}
+	zero := "0"
+	if ret == SReal {
+		zero = "0.0"
 	}
 	var ps []string
 	ps = append(ps, arrSort, "Int")
@@ -268,19 +281,35 @@ func (r *SpecReg) buildFold(sd *SpecDecl) {
 		return "(let ((e (select " + arr + " " + idx + "))) " + g.S + ")"
 	}
 	var b strings.Builder
-	fmt.Fprintf(&b, "(declare-fun %s (%s) Int)\n", smt, strings.Join(ps, " "))
-	fmt.Fprintf(&b, "(assert (forall ((a %s)%s) (! (= (%s a 0%s) 0) :pattern ((%s a 0%s)))))\n", arrSort, exd, smt, ex, smt, ex)
+	fmt.Fprintf(&b, "(declare-fun %s (%s) %s)\n", smt, strings.Join(ps, " "), ret.Name)
+	fmt.Fprintf(&b, "(assert (forall ((a %s)%s) (! (= (%s a 0%s) %s) :pattern ((%s a 0%s)))))\n", arrSort, exd, smt, ex, zero, smt, ex)
 	fmt.Fprintf(&b, "(assert (forall ((a %s) (k Int)%s) (! (=> (> k 0) (= (%s a k%s) (+ (%s a (- k 1)%s) %s))) :pattern ((%s a k%s)))))\n",
 		arrSort, exd, smt, ex, smt, ex, gAt("a", "(- k 1)"), smt, ex)
 	// store-frame lemma (proved by induction as a lemma obligation)
 	frame := fmt.Sprintf("(assert (forall ((a %s) (i Int) (v %s) (k Int)%s) (! (=> (and (<= 0 k) (<= k i)) (= (%s (store a i v) k%s) (%s a k%s))) :pattern ((%s (store a i v) k%s)))))\n",
 		arrSort, sl.Elem.Name, exd, smt, ex, smt, ex, smt, ex)
-	fn := &SpecFn{Name: name, Kind: "sumfold", Params: sorts, Ret: SInt, SMT: smt}
+	fn := &SpecFn{Name: name, Kind: "sumfold", Params: sorts, Ret: ret, SMT: smt}
 	for _, q := range sd.Params {
 		fn.PNames = append(fn.PNames, q.Name)
 	}
 	base := b.String()
-	fn.Decl = base + frame
+	update := fmt.Sprintf("(assert (forall ((a %s) (i Int) (v %s) (k Int)%s) (! (=> (and (<= 0 i) (< i k)) (= (%s (store a i v) k%s) (+ (- (%s a k%s) %s) %s))) :pattern ((%s (store a i v) k%s)))))\n",
+		arrSort, sl.Elem.Name, exd, smt, ex, smt, ex, gAt("a", "i"), "(let ((e v)) "+g.S+")", smt, ex)
+	fn.Decl = base + frame + update
+	{
+		var u strings.Builder
+		u.WriteString(base + frame)
+		fmt.Fprintf(&u, "(declare-const a %s)\n(declare-const i Int)\n(declare-const v %s)\n(declare-const k Int)\n", arrSort, sl.Elem.Name)
+		for i := 1; i < len(sorts); i++ {
+			fmt.Fprintf(&u, "(declare-const x%s %s)\n", sd.Params[i].Name, sorts[i].Name)
+		}
+		rhs := func(kk string) string {
+			return fmt.Sprintf("(+ (- (%s a %s%s) %s) %s)", smt, kk, ex, gAt("a", "i"), "(let ((e v)) "+g.S+")")
+		}
+		fmt.Fprintf(&u, "(assert (and (<= 0 i) (< i k)))\n(assert (=> (< i (- k 1)) (= (%s (store a i v) (- k 1)%s) %s)))\n", smt, ex, rhs("(- k 1)"))
+		fmt.Fprintf(&u, "(assert (not (= (%s (store a i v) k%s) %s)))\n", smt, ex, rhs("k"))
+		fn.Lemmas = append(fn.Lemmas, LemmaVC{Name: "lemma:" + name + ":store-update-step", Body: u.String()})
+	}
 	// lemma VC: induction step for the store-frame lemma.
 	var l strings.Builder
 	l.WriteString(base)
@@ -525,6 +554,27 @@ func (e *SpecEnv) Eval(x *SX) (Term, error) {
 		body, err := e.withBound(vs).EvalBool(x.Args[0])
 		if err != nil {
 			return body, err
+		}
+		if len(x.Args) > 1 {
+			var ps string
+			for _, tx := range x.Args[1:] {
+				tt, err := e.withBound(vs).Eval(tx)
+				if err != nil {
+					return tt, err
+				}
+				ps += " :pattern (" + tt.S + ")"
+			}
+			return Term{fmt.Sprintf("(%s (%s) (! %s%s))", x.Op, strings.Join(decl, " "), body.S, ps), SBool}, nil
+		}
+		if x.Op == "forall" && len(x.Vars) == 1 {
+			vn := "q_" + x.Vars[0].Name
+			if trg := inferTriggers(body.S, vn, map[string]bool{vn: true}); len(trg) > 0 && len(trg) <= 4 {
+				var ps string
+				for _, t := range trg {
+					ps += " :pattern (" + t + ")"
+				}
+				return Term{fmt.Sprintf("(forall (%s) (! %s%s))", strings.Join(decl, " "), body.S, ps), SBool}, nil
+			}
 		}
 		return Term{fmt.Sprintf("(%s (%s) %s)", x.Op, strings.Join(decl, " "), body.S), SBool}, nil
 	case "as", "is":
@@ -866,7 +916,7 @@ func (e *SpecEnv) evalCall(x *SX) (Term, error) {
 			}
 			parts = append(parts, ex.S)
 		}
-		return Term{sx(fn.SMT, parts...), SInt}, nil
+		return Term{sx(fn.SMT, parts...), fn.Ret}, nil
 	}
 	if len(args) != len(fn.Params) {
 		return Term{}, fmt.Errorf("%s expects %d arguments", x.Name, len(fn.Params))
